@@ -281,88 +281,132 @@ func coqStr(s string) string {
 	return "[" + strings.Join(parts, "; ") + "]"
 }
 
-type anchor struct{ File, Recv, Func string }
+// ---------- spec-driven main ----------
+//
+// Every property has tools/gosrc2v/specs/<ID>.json:
+//   {"items": [ {"kind": "regex",  "file": "registry/reference.go", "name": "tagRegexp"},
+//               {"kind": "const",  "file": "copy.go", "name": "defaultConcurrency"},
+//               {"kind": "anchor", "file": "copy.go", "recv": "", "func": "copyGraph"},
+//               ... further kinds registered in kind_*.go ... ]}
+// and gets coq/Generated/G<ID>.v (definitions, in item order) and
+// coq/Generated/anchors_<ID>.json (AST hashes of hand-modelled functions).
 
-func main() {
-	flag.Parse()
-	if *out == "" {
-		fail("missing -out")
-	}
-	c := &fileCache{fset: token.NewFileSet(), files: map[string]*ast.File{}}
-	var w bytes.Buffer
-	hdr := "(* GENERATED by tools/gosrc2v from the Go sources of /repo -- do not edit. *)\n"
+type Item struct {
+	Kind string         `json:"kind"`
+	File string         `json:"file"`
+	Name string         `json:"name"`
+	Coq  string         `json:"coq"`  // Coq identifier (default: Name)
+	Recv string         `json:"recv"` // receiver type for methods
+	Func string         `json:"func"`
+	Args map[string]any `json:"args"`
+}
 
-	// ---- Regexes.v ----
-	w.WriteString(hdr)
-	w.WriteString("From Oras Require Import Base.Prelude Base.Regex.\n\n")
-	type rx struct{ file, name string }
-	for _, r := range []rx{
-		{"registry/reference.go", "repositoryRegexp"},
-		{"registry/reference.go", "tagRegexp"},
-		{"pack.go", "mediaTypeRegexp"},
-	} {
-		e := findVarInit(c.get(r.file), r.name)
+type Ctx struct {
+	c *fileCache
+	w *bytes.Buffer
+}
+
+func (x *Ctx) File(rel string) *ast.File      { return x.c.get(rel) }
+func (x *Ctx) Fset() *token.FileSet           { return x.c.fset }
+func (x *Ctx) Printf(format string, a ...any) { fmt.Fprintf(x.w, format, a...) }
+
+// kinds maps an item kind to its generator; kind_*.go files add entries in init().
+var kinds = map[string]func(x *Ctx, it Item){
+	"regex": func(x *Ctx, it Item) {
+		e := findVarInit(x.File(it.File), it.Name)
 		if e == nil {
-			fail("%s: variable %s not found", r.file, r.name)
+			fail("%s: variable %s not found", it.File, it.Name)
 		}
 		pat, ok := regexLiteral(e)
 		if !ok {
-			fail("%s: %s is not regexp.MustCompile(<string literal>)", r.file, r.name)
+			fail("%s: %s is not regexp.MustCompile(<string literal>)", it.File, it.Name)
 		}
-		fmt.Fprintf(&w, "(* %s: %s = %s *)\n", r.file, r.name, strings.ReplaceAll(pat, "*)", "* )"))
-		fmt.Fprintf(&w, "Definition %s : re :=\n  %s.\n\n", r.name, anchoredRegex(pat, r.file+":"+r.name))
-	}
-	writeIfChanged(filepath.Join(*out, "Regexes.v"), w.Bytes())
-
-	// ---- Consts.v ----
-	w.Reset()
-	w.WriteString(hdr)
-	w.WriteString("From Oras Require Import Base.Prelude.\n\n")
-	type cst struct{ file, name, coq string }
-	for _, k := range []cst{
-		{"copy.go", "defaultConcurrency", "defaultConcurrency"},
-		{"copy.go", "defaultCopyMaxMetadataBytes", "defaultCopyMaxMetadataBytes"},
-		{"registry/remote/utils.go", "defaultMaxMetadataBytes", "defaultMaxMetadataBytes"},
-		{"registry/remote/internal/errutil/errutil.go", "maxErrorBytes", "maxErrorBytes"},
-		{"content/file/file.go", "defaultFallbackPushSizeLimit", "defaultFallbackPushSizeLimit"},
-	} {
-		f := c.get(k.file)
-		e := findVarInit(f, k.name)
+		x.Printf("(* %s: %s = %s *)\n", it.File, it.Name, strings.ReplaceAll(strings.ReplaceAll(pat, "*)", "* )"), "(*", "( *"))
+		x.Printf("Definition %s : re :=\n  %s.\n\n", coqName(it), anchoredRegex(pat, it.File+":"+it.Name))
+	},
+	"const": func(x *Ctx, it Item) {
+		f := x.File(it.File)
+		e := findVarInit(f, it.Name)
 		if e == nil {
-			// tolerate absence: emit nothing, dependants will fail to compile
-			fail("%s: constant %s not found", k.file, k.name)
+			fail("%s: constant %s not found", it.File, it.Name)
 		}
-		v := evalConst(f, e, k.file+":"+k.name)
-		fmt.Fprintf(&w, "Definition %s : Z := (%s)%%Z.\n", k.coq, v.ExactString())
-	}
-	writeIfChanged(filepath.Join(*out, "Consts.v"), w.Bytes())
+		v := evalConst(f, e, it.File+":"+it.Name)
+		if v.Kind() == constant.String {
+			x.Printf("Definition %s : str := %s.\n\n", coqName(it), coqStr(constant.StringVal(v)))
+		} else if v.Kind() == constant.Float {
+			num, den := constant.Num(v), constant.Denom(v)
+			x.Printf("Definition %s_num : Z := (%s)%%Z.\nDefinition %s_den : Z := (%s)%%Z.\n\n", coqName(it), num.ExactString(), coqName(it), den.ExactString())
+		} else {
+			x.Printf("Definition %s : Z := (%s)%%Z.\n\n", coqName(it), v.ExactString())
+		}
+	},
+}
 
-	// ---- anchors.json: AST hashes of hand-modelled functions ----
-	anchors := []anchor{
-		{"registry/reference.go", "", "ParseReference"},
-		{"registry/reference.go", "Reference", "String"},
-		{"registry/reference.go", "Reference", "ValidateReference"},
+func coqName(it Item) string {
+	if it.Coq != "" {
+		return it.Coq
 	}
-	hashes := map[string]string{}
-	for _, a := range anchors {
-		fd := findFunc(c.get(a.File), a.Recv, a.Func)
-		key := a.File + ":" + a.Recv + "." + a.Func
-		if fd == nil {
-			hashes[key] = "MISSING"
+	return it.Name
+}
+
+func main() {
+	specs := flag.String("specs", "", "directory of <ID>.json specs")
+	flag.Parse()
+	if *out == "" || *specs == "" {
+		fail("usage: gosrc2v -repo /repo -specs tools/gosrc2v/specs -out coq/Generated [ID...]")
+	}
+	ents, err := os.ReadDir(*specs)
+	if err != nil {
+		fail("%v", err)
+	}
+	want := map[string]bool{}
+	for _, a := range flag.Args() {
+		want[a] = true
+	}
+	hdr := "(* GENERATED by tools/gosrc2v from the Go sources of /repo -- do not edit. *)\n" +
+		"From Oras Require Import Base.Prelude Base.Regex.\n\n"
+	for _, e := range ents {
+		if !strings.HasSuffix(e.Name(), ".json") {
 			continue
 		}
-		fd.Doc = nil
-		hashes[key] = astHash(c.fset, fd)
+		id := strings.TrimSuffix(e.Name(), ".json")
+		if len(want) > 0 && !want[id] {
+			continue
+		}
+		data, err := os.ReadFile(filepath.Join(*specs, e.Name()))
+		if err != nil {
+			fail("%v", err)
+		}
+		var spec struct {
+			Items []Item `json:"items"`
+		}
+		if err := json.Unmarshal(data, &spec); err != nil {
+			fail("%s: %v", e.Name(), err)
+		}
+		x := &Ctx{c: &fileCache{fset: token.NewFileSet(), files: map[string]*ast.File{}}, w: &bytes.Buffer{}}
+		x.w.WriteString(hdr)
+		var hashes [][2]string
+		for _, it := range spec.Items {
+			if it.Kind == "anchor" {
+				fd := findFunc(x.File(it.File), it.Recv, it.Func)
+				key := it.File + ":" + it.Recv + "." + it.Func
+				if fd == nil {
+					hashes = append(hashes, [2]string{key, "MISSING"})
+					continue
+				}
+				fd.Doc = nil
+				hashes = append(hashes, [2]string{key, astHash(x.Fset(), fd)})
+				continue
+			}
+			g, ok := kinds[it.Kind]
+			if !ok {
+				fail("%s: unknown item kind %q", e.Name(), it.Kind)
+			}
+			g(x, it)
+		}
+		writeIfChanged(filepath.Join(*out, "G"+id+".v"), x.w.Bytes())
+		sort.Slice(hashes, func(i, j int) bool { return hashes[i][0] < hashes[j][0] })
+		js, _ := json.MarshalIndent(hashes, "", " ")
+		writeIfChanged(filepath.Join(*out, "anchors_"+id+".json"), append(js, '\n'))
 	}
-	keys := make([]string, 0, len(hashes))
-	for k := range hashes {
-		keys = append(keys, k)
-	}
-	sort.Strings(keys)
-	ordered := make([][2]string, 0, len(keys))
-	for _, k := range keys {
-		ordered = append(ordered, [2]string{k, hashes[k]})
-	}
-	js, _ := json.MarshalIndent(ordered, "", " ")
-	writeIfChanged(filepath.Join(*out, "anchors.json"), append(js, '\n'))
 }
